@@ -52,7 +52,7 @@ CHECKS = {
     "C08": dict(
         level="model_checking",
         technique="TLA+ symbolic model TLCPAdv of the authenticated handshake with an attacker - GM/T 0024 ECC, TLS RSA key transport and TLS ECDHE_RSA, CBC and AEAD suite each, all five client-auth policies (Authentication, Agreement, LaxPoliciesAccept checked by TLC); every attacker scenario realised against real endpoints through generated SM2 and RSA PKI, wrong private keys, verif peer fault points (GMSSL) or the same deviation made on the wire (TLS), and a field-aware man in the middle",
-        text="TLC checks Authentication (client completes only with a peer holding both certified keys and proving it in this session; server with verified client auth only with the key holder over this transcript) and Agreement on the symbolic model for every single-deviation scenario under six protocol combinations and five client-auth policies (7 certificate kinds per slot, wrong key per slot, SKE omitted/replayed/mis-signed/over another encryption certificate, client certificate kinds, wrong client key, replayed CertificateVerify, 13 field rewrites, a changed byte at 8 (64 thorough) positions of each plaintext handshake message, verification off; both endpoints on a configured clock ten days ahead with certificates valid now / then / both in every slot - ClockHonoured demands completion for what is valid at the configured time; a VerifyPeerCertificate callback that refuses, on either side, under every policy); each scenario runs against the real client and server and the set of endpoints that complete must be the model's.",
+        text="TLC checks Authentication (client completes only with a peer holding both certified keys and proving it in this session; server with verified client auth only with the key holder over this transcript) and Agreement on the symbolic model for every single-deviation scenario under six protocol combinations and five client-auth policies (7 certificate kinds per slot, wrong key per slot, SKE omitted/replayed/mis-signed/over another encryption certificate, client certificate kinds, wrong client key, replayed CertificateVerify, 13 field rewrites, a changed byte at 8 (64 thorough) positions of each plaintext handshake message, verification off; both endpoints on a configured clock ten days ahead with certificates valid now / then / both in every slot - ClockHonoured demands completion for what is valid at the configured time; a VerifyPeerCertificate callback that refuses, on either side, under every policy; a certificate whose common name matches while its SAN names another host; a third self-made encryption certificate behind the genuine pair; a client list that starts with a self-made CA certificate); each scenario runs against the real client and server and the set of endpoints that complete must be the model's.",
         note="Symbolic cryptography (signatures unforgeable, encryption opaque). TLS scenarios use RSA certificates (ECDSA server certificates are not exercised). One deviation per scenario.",
         ref="DESIGN.md section 5 C08"),
     "C09": dict(
@@ -94,7 +94,7 @@ CHECKS = {
     "C15": dict(
         level="fault_enumeration",
         technique="TLA+ spec TLCPPeer (endpoint flight grammar as a state machine + one peer deviation), every (role, position, deviation) explored by TLC to its verdict; each case realised by a message-level interposer between the endpoint under test and an honest gmtls peer, by peer fault points, or by hand-written scripted peers with their own transcript, key schedule and record protection (a GMSSL client, GMSSL / TLS servers, a TLS server that renegotiates)",
-        text="TLC enumerates 2.3k cases over 6 endpoint roles (GM client, GM-only server, auto-switch server under GM and TLS, TLS client, TLS server) x client auth on/off x every position of the plaintext flight x {drop, duplicate, swap, inject or substitute each of 16 message kinds incl. RSA certificates where SM2 ones belong, 9 truncations / length-field perturbations, ChangeCipherSpec, application data, warning and fatal alerts, end of stream, ClientHello rewritten to 12 versions / 6 suite lists / no null compression, one of 12 hello extensions (either direction) replaced by 9 content shapes with consistent outer lengths}; the real endpoint must return an error, never report completion, never panic, and return once its input has ended; consistent deviations by scripted peers (CertificateVerify omitted or doubled, Finished before / without ChangeCipherSpec or with a wrong length, application data before Finished, another curve, a second handshake without ChangeCipherSpec); benign variations (re-fragmentation, a warning alert, an honest renegotiation) must still complete.",
+        text="TLC enumerates 2.3k cases over 6 endpoint roles (GM client, GM-only server, auto-switch server under GM and TLS, TLS client, TLS server) x client auth on/off x every position of the plaintext flight x {drop, duplicate, swap, inject or substitute each of 16 message kinds incl. RSA certificates where SM2 ones belong, 9 truncations / length-field perturbations, ChangeCipherSpec, application data, warning and fatal alerts, end of stream, ClientHello rewritten to 12 versions / 6 suite lists / no null compression, one of 12 hello extensions (either direction) replaced by 9 content shapes with consistent outer lengths, a consistent server naming an unsupported ServerHello version, a transport that refuses the endpoint's last flight}; the real endpoint must return an error, never report completion, never panic, and return once its input has ended; consistent deviations by scripted peers (CertificateVerify omitted or doubled, Finished before / without ChangeCipherSpec or with a wrong length, application data before Finished, another curve, a second handshake without ChangeCipherSpec); benign variations (re-fragmentation, a warning alert, an honest renegotiation) must still complete.",
         note="Deviations are single ops applied to an otherwise honest flight (no keys are needed: the plaintext phase); encrypted-phase deviations are made by the scripted peers only (wrong Finished values and records after CCS are C07/C08). Trusts the interposer's handshake-message reassembly. Hang detection: input ended after 0.6 s of silence, then 3 s to return.",
         ref="DESIGN.md section 5 C15"),
     "C16": dict(
